@@ -115,6 +115,16 @@ theorem bw_call {ty : Ty} {f : Expr} {args : List Expr} (hL : BWL P (f :: args))
       by simpa [names, namesList] using hy.fresh, hy.bound⟩)
     (fun _ _ _ h => Or.inl (ev_call_ops.2 h)) (fun _ _ _ _ h => ev_call_ops.1 h)
 
+theorem bw_dynCall {tr m : String} {ty : Ty} {recv : Expr} {args : List Expr} (hL : BWL P (recv :: args)) :
+    BW P (.dynCall tr m ty recv args) :=
+  bw_ops P (mk := fun cs => match cs with | ri :: is => .dynCall tr m ty ri is | [] => .prim .unit)
+    (H := dynH P tr m) hL
+    (fun n => ⟨rfl, rfl, rfl⟩)
+    (fun D n N hy => ⟨by simpa [frag, fragList] using hy.frag, by simpa [names, namesList] using hy.dis,
+      by simpa [names, namesList] using hy.fresh, hy.bound⟩)
+    (fun _ _ _ h => dyn_src_bw h)
+    (fun n _ _ _ h => (dyn_tgt (decImm_c_atom recv n) (decList_cs_atoms args _)).1 h)
+
 theorem bw_bin_plain {op : BinOp} {ty : Ty} {l r : Expr}
     (hc : ((op == .and || op == .or) && !isAtom r) = false) (hL : BWL P [l, r]) : BW P (.bin op ty l r) := by
   have hcase : isAtom r = true ∨ (op ≠ .and ∧ op ≠ .or) := by
@@ -518,7 +528,7 @@ theorem bw : ∀ (e : Expr), BW P e
     · exact bw_bin_lowered P hc (bw l) (bw r)
   | .call ty f args => bw_call P (bwL_cons P (bw_imm P (bw f)) (bwL args))
   | .toDyn tr forTy ty e => bw_toDyn P (bw e)
-  | .dynCall tr m ty recv args => fun _ _ _ _ _ _ _ hy => by have := hy.frag; simp [frag] at this
+  | .dynCall tr m ty recv args => bw_dynCall P (bwL_cons P (bw_imm P (bw recv)) (bwL args))
   | .proj idx ty e => bw_proj P (bw e)
 theorem bwL : ∀ (es : List Expr), BWL P es
   | [] => bwL_nil P
